@@ -22,6 +22,8 @@
      univ_safe g o    := a cell is only appended / moved into a universe the problem holds, a universe
                          is only removed when no member cell is in it, o is not Relink
      no_relink ops    := links_safe for every operation, decided from the program alone
+     quiet_op o       := o changes neither a geometry nor a cell's lists (assignments of material, universe,
+                         fill, transforms, numbers; collection operations; add_cell_children_to_problem)
      all_safe p g ops := p holds for every operation in the state it is applied to *)
 From Coq Require Import List ZArith Bool.
 From MPV Require Import Model.Graph Proofs.GraphProofs.
@@ -66,6 +68,17 @@ Proof.
   intros g0 g ops R L H NM N c _. apply (run_inv ops g); [eapply read_then_inv; eauto | apply no_relink_all_safe; exact N].
 Qed.
 Print Assumptions C16_read_then_edit.
+
+(* 2''. node.left = sub / node.right = sub with a side taken from ANOTHER cell's geometry (it keeps the
+        _cell it has): the cell of the node takes the side's dividers whoever owned the side before, so
+        Links holds after it and after every later operation that changes no geometry (quiet_op); node
+        ownership (Owned) does not survive it, which is why later in-place edits are outside this theorem *)
+Theorem C16_foreign_side :
+  forall ops1 c p sd c2 p2 ops2 g,
+    Inv g -> no_relink ops1 = true -> forallb quiet_op ops2 = true ->
+    LinksAll (run g (ops1 ++ SetSide c p sd c2 p2 :: ops2)).
+Proof. exact foreign_side_links. Qed.
+Print Assumptions C16_foreign_side.
 
 (* 2'. an assignment that the cell refuses (two dividers with one number) changes nothing *)
 Theorem C16_refused_geometry_unchanged :
